@@ -545,6 +545,57 @@ def main(tier, seed):
         elif b"TyFileCarrierQ" in fr["bin"].read_bytes():
             report({"kind": "leak", "pkg": "command-line-arguments", "gogarble": frow["gogarble"]}, {"src": fsrc}, "command-line-arguments main package is not obfuscated")
 
+    # ---------------------------------------------------------------- std closure under the default GOGARBLE=*
+    # Every package the build compiles is matched by "*": it must be obfuscated unless it is the runtime or one of
+    # its dependencies (go_std_tables.go), runtime/cgo, or crypto/internal/fips140 and the packages below it - the
+    # documented exceptions of appendListedPackages, read here as path ELEMENTS (crypto/internal/fips140only is a
+    # sibling, not an exception).  One program that pulls in a wide slice of std, traced.
+    ssrc = root / "src-stdclosure"
+    write_module(ssrc, {"main.go": """package main
+
+import (
+	"crypto/hmac"
+	"crypto/md5"
+	"crypto/sha256"
+	"encoding/hex"
+	"os"
+)
+
+func main() {
+	m := hmac.New(sha256.New, []byte("k"))
+	m.Write([]byte("msg"))
+	s := md5.Sum([]byte("x"))
+	os.Stdout.WriteString(hex.EncodeToString(m.Sum(nil))[:8] + hex.EncodeToString(s[:])[:4] + "\n")
+}
+"""}, module="example.com/stdclosure")
+    sbs = Sandbox(root / "sb-stdclosure", template=True)
+    strace = root / "stdclosure.ndjson"
+    rs = sbs.garble(["build", "-o", str(root / "stdclosure.bin"), "."], cwd=ssrc, trace=strace, timeout=2400)
+    rg = sbs.go(["build", "-trimpath", "-o", str(root / "stdclosure.ref"), "."], cwd=ssrc)
+    chk.case(["std-closure", "*"], sample={"program": "hmac+sha256+md5", "rc": rs.returncode})
+    if rg.returncode != 0:
+        raise Inconclusive(f"std-closure program does not build with go build: {rg.stderr[-1000:]}")
+    if rs.returncode != 0:
+        report({"kind": "build-failed", "gogarble": "*", "graph": "std-closure"}, {"src": ssrc, "stderr.txt": rs.stderr[-4000:]},
+               f"garble build of the std-closure program fails: {rs.stderr.strip()[-300:]}")
+    else:
+        sev = {ev["pkg"]: ev["obfuscate"] for ev in read_trace(strace) if ev.get("ev") == "compile-start"}
+
+        def excepted(path):
+            return (path in real_rt or path == "runtime/cgo" or path == "crypto/internal/fips140" or path.startswith("crypto/internal/fips140/"))
+        plain = sorted(p for p, o in sev.items() if not o and not excepted(p))
+        wrongly = sorted(p for p, o in sev.items() if o and excepted(p))
+        chk.extra["std_closure"] = {"compiled": len(sev), "obfuscated": sum(1 for o in sev.values() if o), "fips140_siblings_seen": sorted(p for p in sev if p.startswith("crypto/internal/fips140") and not excepted(p))}
+        out_g, out_r = run([root / "stdclosure.bin"], timeout=60), run([root / "stdclosure.ref"], timeout=60)
+        if plain:
+            report({"kind": "decision", "pkg": "std", "gogarble": "*", "real": False}, {"src": ssrc, "events.json": json.dumps(sev, indent=1)},
+                   f"default GOGARBLE=*: packages {plain[:6]} are matched but were compiled with obfuscate=false (not the runtime, its dependencies or crypto/internal/fips140/...)")
+        if wrongly:
+            report({"kind": "runtime-obfuscated", "via": "std-closure"}, {"src": ssrc, "events.json": json.dumps(sev, indent=1)},
+                   f"default GOGARBLE=*: never-obfuscated packages {wrongly[:6]} were compiled with obfuscate=true")
+        if (out_g.returncode, out_g.stdout) != (out_r.returncode, out_r.stdout):
+            report({"kind": "behaviour", "gogarble": "*", "graph": "std-closure"}, {"src": ssrc}, f"std-closure program prints {out_g.stdout!r}, regular build {out_r.stdout!r}")
+
     chk.exhaustive = (tier == "thorough")
     return chk.finish()
 
